@@ -3,7 +3,7 @@ package main
 // Walking populated resources: every message-valued element with the schema facts of its position.
 
 import (
-	"strings"
+	apb "github.com/google/fhir/go/proto/google/fhir/proto/annotations_go_proto"
 
 	bcrpb "github.com/google/fhir/go/proto/google/fhir/proto/r4/core/resources/bundle_and_contained_resource_go_proto"
 	"github.com/verily-src/fhirpath-go/internal/containedresource"
@@ -85,8 +85,21 @@ func typeFacts(m proto.Message) string {
 	inner := throughChoice(m)
 	d := inner.ProtoReflect().Descriptor()
 	name := string(d.Name())
-	vf := d.Fields().ByName("value")
-	isCode := strings.HasSuffix(name, "Code") && vf != nil && !vf.IsList() && (vf.Kind() == protoreflect.EnumKind || vf.Kind() == protoreflect.StringKind)
+	// declared `code`: the structure-definition annotation says the message profiles FHIR's code
+	// (independent of the message's name, which the implementation keys on)
+	isCode := false
+	if opts := d.Options(); opts != nil {
+		if bases, ok := proto.GetExtension(opts, apb.E_FhirProfileBase).([]string); ok {
+			for _, b := range bases {
+				if b == "http://hl7.org/fhir/StructureDefinition/code" {
+					isCode = true
+				}
+			}
+		}
+	}
+	if string(d.FullName()) == "google.fhir.r4.core.Code" {
+		isCode = true
+	}
 	_, nested := d.Parent().(protoreflect.MessageDescriptor)
 	modext := d.Fields().ByName("modifier_extension") != nil
 	b := func(x bool) string {
